@@ -110,6 +110,10 @@ def judge(ctx, case):
         ctx.sample({"entries": [(list(k), v) for k, v in list(ent.items())[:4]], "n_entries": n, "common": common})
     data = indx.save_bytes(case)
     out, lcommon, dt, info = indx.load_bytes(data)
+    ctx.count("earlier_load_rechecked")
+    if indx.LATER_CHANGE[0]:
+        ctx.violation("earlier-result-changed-by-a-later-load:" + feat, indx.LATER_CHANGE[0], case)
+        return
     compare(ctx, case, ent, common, out, lcommon, info, feat)
 
 
